@@ -169,6 +169,9 @@ pub enum Rec {
     BodyEnd { pre: Snapshot },
     /// generation finished (after STOP and the FRAME patch)
     Final { post: Snapshot },
+    /// the candidate list the body loop is about to draw from (`weighted_choice`), and how many fuzzer
+    /// bytes are left at that moment (None for the seeded source)
+    Valid { ops: Vec<u8>, left: Option<usize> },
     /// a value mutator returned `Some` (kind: 'i','f','s','y','m')
     Mutated { kind: char },
     /// a `post_process` call changed the output buffer
@@ -202,6 +205,16 @@ pub(super) fn trace_op(g: &Generator, op: OpcodeKind, arg: Option<&[u8]>) {
         op: op.as_u8(),
         arg: arg.map(|a| a.to_vec()),
         pre: snapshot(g),
+    });
+}
+
+pub(super) fn trace_valid(ops: &[OpcodeKind], source: &GenerationSource) {
+    record(|| Rec::Valid {
+        ops: ops.iter().map(|o| o.as_u8()).collect(),
+        left: match source {
+            GenerationSource::Arbitrary(u) => Some(u.len()),
+            GenerationSource::Rand(_) => None,
+        },
     });
 }
 
